@@ -184,6 +184,11 @@ CHECK_DEADLOCK FALSE
     # (TSM.tla's WindowRespectsAck / WindowRange evaluated by TLC on recorded transfers, Trace_TSM.tla)
     import c05
     wtr = []
+    # ... and before the peer has granted any window (its first segment ack lost / late): one segment at a time, also when
+    # the request itself came in segments and left a window behind (every single drop / delay at every frame)
+    for nq, nr, w in ([(3, 5, 4), (1, 5, 3), (4, 4, 8)] if thorough else [(3, 5, 4)]):
+        rcw = tsmlib.rig_cfg(seg=50, nq=nq, nr=nr, pwc=w, pws=w, maxsegs=None)
+        wtr += c05.single_fault_traces(rcw, kinds=("drop", "delay"), orders=("fifo",))
     for nq, nr, w in ([(9, 1, 4), (1, 9, 4), (10, 10, 3), (12, 1, 127)] if thorough else [(9, 1, 4), (1, 9, 4)]):
         rcw = tsmlib.rig_cfg(seg=50, nq=nq, nr=nr, pwc=w, pws=w, maxsegs=None)
         for t in c05.single_fault_traces(rcw, kinds=("shrink",), orders=("fifo",)):
